@@ -424,3 +424,8 @@ PROP = with_src(PROP, share=10,
                           "Src.SpecifierSet.prereleases_eq_model", "Src.SpecifierSet.prereleases__set_eq_model",
                           "Src.SpecifierSet.contains_eq_model", "Src.SpecifierSet.contains_str",
                           "Src.SpecifierSet.__contains___eq_model", "Src.SpecifierSet.filter_eq_model"])
+
+# history-insensitivity on shared objects (harness/histlaw.py): programs over Specifier / SpecifierSet / Requirement / Marker
+# objects; extra read-only calls and work on unrelated objects built from the same texts must not change any answer
+import histlaw  # noqa: E402
+PROP = histlaw.attach(PROP, every=25)
